@@ -128,6 +128,7 @@ def run(ctx):
                      "schedule": r["sched"], "outs": [(o["sess"], o["tag"], o["id"]) for o in r["outs"]],
                      "schedules_with_this_outcome": r["count"]} for r in recs[:3]],
         "schedules_executed": stats["schedules"], "per_program": stats["per_program"],
+        "deadlock_verdicts_not_reproduced": stats.get("deadlock_verdicts_not_reproduced", 0),
         "concurrent_pairs_through_Auditd_Read": sst["pairs"],
         "distinct_outcomes": len(recs), "free_running_race_runs": len(progs) * reps, "data_races": nraces,
         "vacuity_guard": "TrackerMutex=FALSE violates %s" % vac["violated"],
